@@ -209,6 +209,14 @@ func (u *Unit) intrinsic(fr *Frame, st *State, fn *ssa.Function, args []Val, whe
 		// the result includes the text of every string and error argument (whatever the verb): enough to follow
 		// the catalogue patterns through the library's own error messages
 		r := u.fresh(SInt, "sprintf")
+		// the literal text between the verbs of a constant format is part of the result
+		if fs, ok := args[0].(*Scalar); ok {
+			if lit, ok := u.eng.strOf(fs.T); ok {
+				for _, chunk := range formatChunks(lit) {
+					u.strIncludes(st.pc, r, u.strLit(chunk))
+				}
+			}
+		}
 		if len(args) > 1 {
 			if sl, ok := args[1].(*SliceV); ok && sl.Cell != nil {
 				for i := 0; i < sl.N; i++ {
@@ -292,8 +300,34 @@ func (u *Unit) intrinsic(fr *Frame, st *State, fn *ssa.Function, args []Val, whe
 	if strings.HasPrefix(pkgPath, "go.uber.org/zap") {
 		return u.freshResults(sig, "zap", st.pc)
 	}
-	// unknown external function: fresh results, no effect on election state
+	// unknown external function: fresh results, no effect on election state; what it can reach through a pointer
+	// to a local (also one wrapped in an interface value: Decode(&v)) is arbitrary afterwards
 	u.unmodelled[name]++
+	for _, a := range args {
+		var p *PtrV
+		switch x := a.(type) {
+		case *PtrV:
+			p = x
+		case *Scalar:
+			p, _ = x.Aux.(*PtrV)
+		}
+		if p != nil && p.Cell != nil && p.Elem != nil && !strings.HasPrefix(p.Cell.Name, "G:") {
+			u.storeCell(st, p.Cell, p.Path, p.Elem, u.freshVal(p.Elem, "written_by_callee", st.pc))
+			continue
+		}
+		// a reference to a struct allocated by this activation (a local whose address escapes)
+		ref, _ := a.(*Scalar)
+		if ref != nil {
+			if inner, ok := ref.Aux.(*Scalar); ok {
+				ref = inner
+			}
+			if ref.Typ != nil && isOwnAlloc(ref.T) {
+				if q := u.structRef(ref, ref.Typ); q != nil {
+					u.storeHeap(fr, st, q, u.freshVal(q.Elem, "written_by_callee", st.pc), where)
+				}
+			}
+		}
+	}
 	var names []string
 	if sig.Recv() != nil {
 		names = append(names, "recv")
@@ -767,6 +801,62 @@ func (u *Unit) intrinsicInvoke(fr *Frame, st *State, full string, recv Val, args
 
 // strIncludes: the string whole contains the string part, as far as the catalogue patterns can tell: every pattern
 // found in part (lower-cased or not) is found in whole.
+// formatChunks: the literal pieces of a fmt format string (the text between verbs; %% is dropped with its chunk
+// boundary, which only loses text).
+func formatChunks(f string) []string {
+	var out []string
+	cur := ""
+	for i := 0; i < len(f); i++ {
+		if f[i] != '%' {
+			cur += string(f[i])
+			continue
+		}
+		if cur != "" {
+			out = append(out, cur)
+			cur = ""
+		}
+		// skip flags, width, precision, argument index, up to and including the verb letter
+		i++
+		for i < len(f) && !((f[i] >= 'a' && f[i] <= 'z') || (f[i] >= 'A' && f[i] <= 'Z') || f[i] == '%') {
+			i++
+		}
+	}
+	if cur != "" {
+		out = append(out, cur)
+	}
+	return out
+}
+
+// strLit: the id of a string literal together with the ground facts about which catalogue patterns it contains.
+func (u *Unit) strLit(s string) Term {
+	id := u.eng.strID(s)
+	if u.strLitKnown == nil {
+		u.strLitKnown = map[string]bool{}
+	}
+	if u.strLitKnown[id.S] {
+		return id
+	}
+	u.strLitKnown[id.S] = true
+	low := App(SInt, "StrLower", id)
+	var cs []Term
+	for _, p := range u.eng.cataloguePatterns {
+		pt := u.eng.strID(p)
+		c1 := App(SBool, "StrContains", id, pt)
+		if !strings.Contains(s, p) {
+			c1 = Not(c1)
+		}
+		c2 := App(SBool, "StrContains", low, pt)
+		if !strings.Contains(strings.ToLower(s), p) {
+			c2 = Not(c2)
+		}
+		cs = append(cs, c1, c2)
+	}
+	if len(cs) > 0 {
+		u.assume(TTrue, And(cs...))
+	}
+	return id
+}
+
 func (u *Unit) strIncludes(pc Term, whole, part Term) {
 	u.assume(pc, u.includesTerm(whole, part))
 }
